@@ -149,6 +149,8 @@ var jScalars = []func() *jval{
 	func() *jval { return jstr(`b\s`) }, func() *jval { return jnum("7") }, func() *jval { return jnum("-1") }, func() *jval { return jnum("1.5") },
 	func() *jval { return &jval{K: "bool", B: true} }, func() *jval { return &jval{K: "bool", B: false} }, func() *jval { return &jval{K: "null"} },
 	func() *jval { return jnum("0") }, func() *jval { return jstr("10s") },
+	// arrays holding nulls
+	func() *jval { return &jval{K: "arr", Items: []*jval{{K: "null"}}} }, func() *jval { return &jval{K: "arr", Items: []*jval{jnum("1"), {K: "null"}, jstr("x")}} },
 	// integers a float64 cannot hold exactly: the label is the number as written
 	func() *jval { return jnum("1700000000123456789") }, func() *jval { return jnum("9007199254740993") },
 }
